@@ -59,6 +59,10 @@ CHECKS = {
    "The statement needs the parser on a CONSTRUCTED string (parse of print); no contract within reach decides the LR automaton's behaviour on all strings, so it is decided by a BOUNDED stand-in: for every query from accepted token sequences of <= 4 (quick) / 6 tokens and each of 8 transformer configurations (copy, resolver x 4 targets, open ranges with / without merging, auto_head_tail), the transformed tree printed and parsed again has the same truth table over the same atoms (term, field path, modifiers), implicit operations of the re-parsed tree being read with the transformer's own convention. The output contracts of the transformers (Copy, Res, Res12 + merge invariant, Aht) are PROVED for all trees (same obligations as C08-T, C10-R, C12, C13-A) and are re-run here.",
    "bounded by token-sequence length; truth-table semantics of trees in bounded/meaning.py. Known findings KF-D9 (resolver output needs groups) and KF-D14 (operator word glued to an operand without a following blank).",
    "bounded exhaustive re-parse check (native) on top of the deductively proved transformer output contracts"),
+ "C18": ("exploration", "3.C18",
+   "PROVED per node class (inline / new-line operators, each parent kind, operand runs): the chunk sequence produced by _get_chains is exactly the printed pieces of the node in print order (atoms by their own __str__, field name with its colon, parentheses, operator words, one new level for a group's content and for an operation nested in an operation of another operator), nothing dropped or duplicated; tree, printer and module state untouched. BOUNDED: _count_chars / _apply_stick / _concatenates emit every chunk unchanged, in order, separated by blanks only (1500 seeded nested chunk lists x 18 settings); the pretty text is accepted and parses to an equal tree, deterministically, input untouched (every accepted token sequence of <= 4 (quick) / 5 tokens with short and long texts x 18 settings + hand-picked deep / multi-line queries). Level exploration because the parse-back clause needs the parser on a constructed string.",
+   "A1-A10 for the chunk contract; the re-join functions and the parse-back clause are bounded.",
+   "contract-based deductive verification of the chunking function (per class, z3) + bounded stand-ins for re-joining and parse-back"),
 }
 PENDING = {
 }
@@ -88,7 +92,7 @@ def main():
         "setup_cmd": "./setup.sh",
         "hooks": {"guard": "LUQUM_VERIF", "enable": "none needed: the loader reads /repo's working tree and instruments it in memory; no source hooks exist in /repo",
                   "baseline_off_cmd": "cd /repo && /venv/bin/python -m pytest -ra -q -p no:cacheprovider",
-                  "source_commits": ["b51bf59", "eaf23e2", "9e0facc", "370da04", "2908544"], "add_only": True},
+                  "source_commits": ["b51bf59", "eaf23e2", "9e0facc", "370da04", "2908544", "c938184"], "add_only": True},
         "engines": [{"name": "symx", "path": "vfkit/", "serves_properties": sorted(CHECKS),
                      "kind_free_text": "verification-condition generator: shadow symbolic execution of the real luqum functions under CPython with z3-term proxies (AST redirects listed in every evidence file), sidecar contracts in contracts/, obligations discharged by z3 5.1 with cvc5 as second opinion; bounded stand-ins run the unmodified code natively"}],
         "checks": checks,
